@@ -341,6 +341,8 @@ func rulesC11(c *Ctx) {
 	c.Rule("fresh-executor")
 	c01Self(c)
 	c12AnyOf(c)
+	// "a string key supplied through the context takes precedence": the context executions see is the one given
+	c01WithContext(c)
 	buildersStore(c, "cachepolicy")
 	delegatingBuilders(c, "cachepolicy")
 }
